@@ -168,7 +168,7 @@ def pScene : P Scene := do
   kw "models"
   let models ← pCounted pModel
   kw "lights"
-  let lights ← pCounted (rep pHex64 3)
+  let lights ← pCounted (rep pHex64 12)
   pure { meshHeap := meshes, texHeap := texs, matHeap := mats, models := models, lights := lights }
 
 /-! ### document -/
@@ -282,13 +282,13 @@ def pDoc : P Doc := do
   kw "samplers"
   let samplers ← pCounted pSampler
   kw "lights"
-  let lights ← pNat
+  let lightData ← pCounted (rep pHex64 9)
   kw "extUsed"
   let used ← pCounted pStr
   kw "extReq"
   let req ← pCounted pStr
   pure { bufLen := bufLen, views := views, accessors := accs, meshes := meshes, nodes := nodes, scene := scene,
-         materials := mats, textures := texs, images := images, samplers := samplers, lights := lights,
+         materials := mats, textures := texs, images := images, samplers := samplers, lights := lightData.length, lightData := lightData,
          extUsed := used, extRequired := req }
 
 def hexByte (a b : Char) : Option UInt8 := do
@@ -379,7 +379,7 @@ def docToks (d : Doc) : List String :=
   ++ ["images", toString d.images.length] ++ d.images.map sq
   ++ ["samplers", toString d.samplers.length]
   ++ d.samplers.flatMap (fun s => [toString s.mag, toString s.min, toString s.wrapS, toString s.wrapT, sq s.name])
-  ++ ["lights", toString d.lights]
+  ++ ["lights", toString d.lights] ++ d.lightData.flatMap (fun l => l.map h64)
   ++ ["extUsed", toString d.extUsed.length] ++ (sortStr d.extUsed).map sq
   ++ ["extReq", toString d.extRequired.length] ++ (sortStr d.extRequired).map sq
 
